@@ -1,11 +1,14 @@
 (* C19: the model side for cell text.  Sub-commands (first argument):
-     xlsx  <pfx|-> <items> <cells>     encode (E), run M, S and known_C19 on a whole workbook case
+     xlsx  <pfx|-> <items> <cells>     encode (E), run M and S on a whole workbook case (the
+                                       `known` field is always "-": no known class is left)
      runx  <sst wire|-> <cells>        M only, on raw event lists (cells: attrs@events|…)
      runs  <sst wire|-> <sheet wire>   M only: the shared-string part and the events that follow
                                        <sheetData>, through read_sheet_cells -> rhex=value/…
      runf  <sheet wire>                M only: the same events through read_sheet_formulas
                                        (worksheet_formula) -> rhex=N|T<hex>|X/…
-     ods   <cells>                     encode, M, S, known for ods cells
+     ods   <cells>                     encode, M, S for ods cells (known field always "-")
+     xstr  <hex>                       ST_Xstring: M (unescape_xstring) : S (xunescape) : E (xescape
+                                       excel_must) of the string
      runo  <cells>                     M only (cells: namehex@attrs@events|…)
      wide  <hex bytes>                 xlsb wide_str
      encwide <hex utf8>                encoder for wide_str
@@ -134,7 +137,7 @@ let cmd_xlsx pfxh itemsh cellsh =
       match stored_text items st with
       | Some s -> show_cell (cell_expected st s)
       | None -> "?") stores) in
-  let known = String.concat "/" (List.map (fun st -> show_known (known_xlsx items st)) stores) in
+  let known = String.concat "/" (List.map (fun _ -> show_known None) stores) in
   let fspec = String.concat "/" (List.map (fun st -> show_fval (formula_expected st)) stores) in
   let legal = String.concat "/" (List.map (fun st ->
       if legal_store st && List.for_all (fun (_, f) -> legal_form f) items then "1" else "0") stores) in
@@ -226,7 +229,7 @@ let cmd_ods cellsh =
   let cs = List.map parse_ods_cell (split '|' cellsh) in
   let cells = List.map (fun (cn, extra, st) -> (cn, ods_cell_attrs extra st, ods_cell_events cn st)) cs in
   let spec = String.concat "/" (List.map (fun (_, _, st) -> "S" ^ hex_of_s (ods_text st)) cs) in
-  let known = String.concat "/" (List.map (fun (_, _, st) -> show_known (known_ods st)) cs) in
+  let known = String.concat "/" (List.map (fun _ -> show_known None) cs) in
   let legal = String.concat "/" (List.map (fun (_, extra, st) ->
       if legal_ods st && legal_extra extra then "1" else "0") cs) in
   String.concat "#" [String.concat "|" (List.map (fun (cn, a, e) ->
@@ -258,6 +261,9 @@ let handler (args : string list) : string =
   | ["runx"; s; c] -> cmd_runx s c
   | ["runs"; s; c] -> cmd_runs s c
   | ["runf"; c] -> cmd_runf c
+  | ["xstr"; h] ->
+    let s = s_of_hex h in
+    hex_of_s (unescape_xstring s) ^ ":" ^ hex_of_s (xunescape s) ^ ":" ^ hex_of_s (xescape excel_must s)
   | ["ods"; c] -> cmd_ods c
   | ["runo"; c] -> cmd_runo c
   | ["wide"; h] -> cmd_wide h
